@@ -208,6 +208,12 @@ func Symbolic() bool { return false }
 
 func IsConcrete(v any) bool { return true }
 
+// SameByte reports whether a and b are the same value on every path that
+// continues from here for a syntactic reason: under the engine the two are the
+// identical (hash-consed) term; it never asks the solver and never forks.
+// false only means "not known to be the same".  Natively a == b.
+func SameByte(a, b byte) bool { return a == b }
+
 // Held reports the lock state of *sync.Mutex / *sync.RWMutex mu as tracked by
 // the engine: 0 free, 1 read-locked, 2 write-locked.  Natively the state is
 // probed with TryLock/TryRLock (single-threaded replay).
